@@ -53,10 +53,16 @@ def client_sets(rng, full=False):
         "follow_me": s["follow_me"], "purifier": s["purifier"], "target_humidity": s["humidity"],
         "aux_mode": s["aux"],
     }
-    if full:
-        return m
-    keys = rng.sample(sorted(m), rng.randint(1, len(m)))
-    return {k: m[k] for k in sorted(keys)}
+    if not full:
+        keys = rng.sample(sorted(m), rng.randint(1, len(m)))
+        m = {k: m[k] for k in sorted(keys)}
+    if rng.random() < 0.15:
+        # the older public names of four settings are still part of the API
+        for new, old in (("eco", "eco_mode"), ("turbo", "turbo_mode"), ("sleep", "sleep_mode"),
+                         ("freeze_protection", "freeze_protection_mode")):
+            if new in m and rng.random() < 0.7:
+                m[old] = m.pop(new)
+    return m
 
 
 def gen_net(rng, version, inner=False):
@@ -74,6 +80,9 @@ def gen_net(rng, version, inner=False):
     if version == 3 and rng.random() < 0.3:
         d["pre"] = [rng.choice(["unsol_state", "unsol_b5", "unknown_id", "unsol_state_report"])
                     for _ in range(rng.randint(1, 2))]
+        if rng.random() < 0.1:
+            # a burst: dozens of packets in the response's segment
+            d["pre"] = [rng.choice(["unsol_state", "unsol_b5", "unsol_state_report"])] * rng.choice([15, 16, 17, 24, 40, 70])
         coalesced_pre = True
     if not inner:
         if rng.random() < 0.3:
